@@ -12,7 +12,7 @@ def run(key):
     except Exception as e:
         return ['%s: exploration failed %s' % (key, e)]
     allow = audit.load_allow()
-    out = ['VACUOUS%s %s %s line %s: closed by %s' % (' (allowed)' if audit.allowed(allow, k, l) else '', k, l, ln, h)
+    out = ['VACUOUS%s %s %s line %s: closed by %s' % (' (allowed)' if audit.allowed(allow, k, l, h) else '', k, l, ln, h)
            for (k, l, ln, h) in closed]
     out.append('%s: %d paths audited, %d closed, %d undetermined (solver unknown)' % (key, n, len(closed), unk))
     return out
